@@ -160,7 +160,7 @@ func c07Run(w *W) {
 	followers := [][]string{{"a\n"}, {"{ b; }\n", "c\n"}, {"cat <<E\nx\nE\n"}, {"\n", "if a; then b; fi\n"}, {"a"}}
 	seen := map[string]bool{}
 	derivations(w.thorough(), func(name string, texts []string) {
-		if name == "WN" || name == "D3" || name == "D2" && !w.thorough() {
+		if name == "WN" || name == "WG" || name == "D3" || name == "D2" && !w.thorough() {
 			return
 		}
 		key := strings.Join(texts, "\x00")
